@@ -288,6 +288,48 @@ def panic_groups(msg, run_events):
     return g
 
 
+def _shutdown_over_held_add(fl):
+    """Known finding `shutdown_sent_while_update_add_held_behind_monitor_write`, keyed by its mechanism: some node n
+    emitted `shutdown` on a channel while (i) a monitor write of (n, channel) was in flight and (ii) an HTLC n's user had
+    been told was accepted on that channel had not left yet (its update_add_htlc is held with the commitment update); and
+    the run is rejected at one of the consequences: that update_add_htlc leaving after the shutdown, or the channel
+    failing with one of the two error texts / its force_closed monitor step."""
+    ev = fl["rec"]
+    prior = fl["run_events"][:fl["pos_in_run"] - 1]
+    cause = False
+    for i, e in enumerate(prior):
+        if e["ev"] == "msg" and e.get("kind") == "shutdown":
+            n, c = e["from"], e["chan"]
+            before = prior[:i]
+            inflight = set()
+            for b in before:
+                if b["ev"] == "persist" and b.get("node") == n and b.get("chan") == c and b.get("status") == "inprogress":
+                    inflight.add(b.get("id"))
+                elif b["ev"] == "complete" and b.get("node") == n and b.get("chan") == c:
+                    inflight.discard(b.get("id"))
+                elif b["ev"] in ("crash",) and b.get("node") == n:
+                    inflight.clear()
+            sent = {b["hash"] for b in before if b["ev"] == "send" and b.get("node") == n and b.get("chan") == c and b.get("result") == "ok" and b.get("direct")}
+            left = {b["hash"] for b in before if b["ev"] == "msg" and b.get("kind") == "update_add_htlc" and b.get("from") == n and b.get("chan") == c}
+            if inflight and (sent - left):
+                cause = (n, c, sent - left)
+                break
+    if not cause:
+        return None
+    n, c, held = cause
+    texts = ("Got add HTLC message when channel was not in an operational state",
+             "Remote end sent us a closing_signed while there were still pending HTLCs")
+    if ev.get("ev") == "msg" and ev.get("kind") == "update_add_htlc" and ev.get("from") == n and ev.get("chan") == c and ev.get("hash") in held:
+        return "shutdown_sent_while_update_add_held_behind_monitor_write"
+    if ev.get("ev") == "msg" and ev.get("kind") == "error" and ev.get("chan") == c and any(t in (ev.get("data") or "") for t in texts):
+        return "shutdown_sent_while_update_add_held_behind_monitor_write"
+    if ev.get("ev") == "persist" and ev.get("chan") == c and any(st.get("k") == "force_closed" for st in ev.get("steps", [])):
+        after = fl["run_events"][fl["pos_in_run"]:fl["pos_in_run"] + 3]
+        if any(a["ev"] == "msg" and a.get("kind") == "error" and any(t in (a.get("data") or "") for t in texts) for a in after):
+            return "shutdown_sent_while_update_add_held_behind_monitor_write"
+    return None
+
+
 def finding_key(pid, fl):
     """Canonical key of a recognised, recorded defect (KNOWN_FINDINGS.jsonl); None for anything else."""
     ev = fl["rec"]
@@ -301,6 +343,9 @@ def finding_key(pid, fl):
                 if rates and e["feerate"] > 2 * min(rates):
                     return "debug_assert_balance_overdrawn_after_fee_jump_beyond_spike_buffer"
                 rates.append(e["feerate"])
+    k = _shutdown_over_held_add(fl)
+    if k:
+        return k
     if pid == "C09" and ev.get("ev") == "msg" and ev.get("kind") == "channel_ready":
         prior = fl["run_events"][:fl["pos_in_run"] - 1]
         node, chan = ev["from"], ev["chan"]
@@ -484,6 +529,7 @@ def channet_part(pid, tier, seed, wd, profiles=(), families=(), thorough_profile
             vlib.run_bin(bins["channet"], args + ["--seed", seed * 100 + 50 + bi, "--out", tpath], discard_stdout=True, timeout=3000,
                          env={"LDK_TEST_CONNECT_STYLE": style})
             summ = json.load(open(tpath + ".summary"))
+            _engine_own_panic(tpath, summ, bname)
             total, fails = vlib.validate_trace(pid, "ChanTrace", "ChanTrace.cfg", tpath, timeout=2400, tag=bname)
             return (tpath, style, summ, total, fails, None)
         except BaseException as e:
@@ -517,6 +563,18 @@ def channet_part(pid, tier, seed, wd, profiles=(), families=(), thorough_profile
                 nviol += 1
     return nviol, {"engine": "channet", "spec": "ChanTrace.tla (guard group %s)" % pid, "runs": runs, "events_validated": events,
                    "path_success_events_judged": judged, "batches": [b[0] for b in batches]}
+
+
+def _engine_own_panic(tpath, summ, bname):
+    """A panic raised by the engine's own code (not inside the library under test) is a tool error, never a verdict."""
+    if not summ.get("panics"):
+        return
+    for line in open(tpath):
+        if '"ev":"panic"' in line:
+            msg = json.loads(line).get("msg", "")
+            loc = msg.split("\n")[0]
+            if "lightning" not in loc and "/repo/" not in loc:
+                raise vlib.ToolError("engine panic outside the library in batch %s: %s" % (bname, msg[:300]))
 
 
 def run_check(pid, tier, seed, mc_cfgs, profiles, thorough_profiles, assumptions, mc_types=("static",),
@@ -611,6 +669,7 @@ def run_check(pid, tier, seed, mc_cfgs, profiles, thorough_profiles, assumptions
             vlib.run_bin(bins["channet"], args + ["--seed", seed * 100 + bi, "--out", tpath], discard_stdout=True, timeout=3000,
                          env={"LDK_TEST_CONNECT_STYLE": style})
             summ = json.load(open(tpath + ".summary"))
+            _engine_own_panic(tpath, summ, bname)
             total, fails = vlib.validate_trace(pid, "ChanTrace", "ChanTrace.cfg", tpath, timeout=2400, tag=bname)
             return (tpath, style, summ, total, fails, None)
         except BaseException as e:          # re-raised in batch order by the consumer below
